@@ -503,6 +503,11 @@ func (w *World) CallPath(from *FuncInfo, target func(*types.Func) bool, maxDepth
 			if target(cs.Static) {
 				return append(append([]string{}, n.path...), ShortKey(cs.Static))
 			}
+			// a call through an interface declared outside the repository (database/sql/driver, getty, ...)
+			// goes to the wrapped implementation, not back into repository types that happen to implement it
+			if cs.Iface && (cs.Static.Pkg() == nil || !strings.HasPrefix(cs.Static.Pkg().Path(), Module)) {
+				continue
+			}
 			for _, c := range cs.Callees {
 				if target(c) {
 					return append(append([]string{}, n.path...), ShortKey(c))
